@@ -1,9 +1,11 @@
 package rules
 
 import (
+	"fmt"
 	"go/constant"
 	"go/token"
 	"go/types"
+	"slipcheck/lenflow"
 	"sort"
 
 	"golang.org/x/tools/go/ssa"
@@ -448,5 +450,112 @@ func c19valueform(c *core.Ctx, r *core.Reporter) {
 				r.Decide(!stored, rule, key, c.Pos(lk.Pos()), "default value read for the load form; stored into the form as it is: "+boolStr(stored))
 			}
 		}
+	}
+}
+
+// c19headidentity: when may a call be written with the bare name? Only when reading the bare name back in the
+// current package finds the very function being called. In slip.FuncPrintName every return of the bare name
+// (the value of Funky.GetName as it is) is reached only through one of these outcomes: the function has no
+// package; its package is the current one (comparison of two packages); the home package has no entry of
+// that name; the entry the current package resolves the name to IS the entry of the function (comparison of
+// two *FuncInfo values, neither a constant). That the current package merely has *some* function of that name
+// is not among them: (pa::helper x) written from a package with its own helper must stay qualified.
+func c19headidentity(c *core.Ctx, r *core.Reporter) {
+	const rule = "C19.headidentity"
+	r.Rule(rule, "slip.FuncPrintName returns the bare name only where the function has no package, its package is the current package, its home package has no such entry, or the entry the name resolves to in the current package is identical (pointer comparison of two FuncInfo values) to the function's own entry", 1)
+	fpn := c.LookupFunc("", "FuncPrintName")
+	if fpn == nil {
+		r.Undecided(rule, "slip.FuncPrintName", "-", "anchor does not resolve")
+		return
+	}
+	fn := c.SSAFunc(fpn)
+	an := lenflow.New(c)
+	var name ssa.Value
+	for _, b := range fn.Blocks {
+		for _, in := range b.Instrs {
+			if call, ok := in.(*ssa.Call); ok && call.Call.IsInvoke() && call.Call.Method.Name() == "GetName" {
+				name = call
+			}
+		}
+	}
+	if name == nil {
+		r.Undecided(rule, "slip.FuncPrintName", c.Pos(fn.Pos()), "the bare name (Funky.GetName) is not read")
+		return
+	}
+	isPtrTo := func(t types.Type, n string) bool {
+		pt, ok := t.Underlying().(*types.Pointer)
+		return ok && core.IsNamed(pt.Elem(), core.SlipPath, n)
+	}
+	isNilC := func(v ssa.Value) bool {
+		k, ok := v.(*ssa.Const)
+		return ok && k.IsNil()
+	}
+	accept := func(ifi *ssa.If, br bool) bool {
+		bo, ok := ifi.Cond.(*ssa.BinOp)
+		if !ok || (bo.Op != token.EQL && bo.Op != token.NEQ) {
+			return false
+		}
+		if (bo.Op == token.EQL) != br {
+			return false // need the "equal" outcome
+		}
+		x, y := bo.X, bo.Y
+		switch {
+		case isPtrTo(x.Type(), "Package") || isPtrTo(y.Type(), "Package"):
+			return true // no package, or the current package
+		case isPtrTo(x.Type(), "FuncInfo") || isPtrTo(y.Type(), "FuncInfo"):
+			if isNilC(x) || isNilC(y) {
+				// "no entry": only for the lookup in the function's own package, i.e. a GetFunc whose
+				// receiver is not the current package
+				v := x
+				if isNilC(x) {
+					v = y
+				}
+				if call, ok := v.(*ssa.Call); ok && len(call.Call.Args) > 0 {
+					if u, ok := call.Call.Args[0].(*ssa.UnOp); ok {
+						if gl, ok := u.X.(*ssa.Global); ok && gl.Name() == "CurrentPackage" {
+							return false
+						}
+					}
+				}
+				return true
+			}
+			return true // identity of two entries
+		}
+		return false
+	}
+	n := 0
+	for _, b := range fn.Blocks {
+		ret, ok := b.Instrs[len(b.Instrs)-1].(*ssa.Return)
+		if !ok || len(ret.Results) != 1 {
+			continue
+		}
+		// which predecessors deliver the bare name?
+		var blocks []*ssa.BasicBlock
+		if ret.Results[0] == name {
+			blocks = []*ssa.BasicBlock{b}
+		} else if phi, ok := ret.Results[0].(*ssa.Phi); ok {
+			for i, e := range phi.Edges {
+				if e == name {
+					blocks = append(blocks, phi.Block().Preds[i])
+				}
+			}
+		}
+		for _, blk := range blocks {
+			n++
+			ok2 := core.Separates(fn, blk, an.NoReturn, accept)
+			// the edge into the return block itself may be the accepting one
+			if !ok2 && blk != b {
+				if ifi, isIf := blk.Instrs[len(blk.Instrs)-1].(*ssa.If); isIf && blk.Succs[0] != blk.Succs[1] {
+					if accept(ifi, blk.Succs[0] == b) {
+						// every path to blk must then be fine up to this edge: accept
+						ok2 = true
+					}
+				}
+			}
+			r.Decide(ok2, rule, fmt.Sprintf("slip.FuncPrintName|bare name return %d", n), c.Pos(ret.Pos()), fmt.Sprintf("reached only through: no package / current package / no entry at home / identical entry: %v", ok2))
+		}
+	}
+	if n == 0 {
+		r.Undecided(rule, "slip.FuncPrintName", c.Pos(fn.Pos()), "no return of the bare name found")
 	}
 }
